@@ -17,7 +17,7 @@ fn fmt_stub2(_a: core::fmt::Arguments<'_>) -> String {
 // @cost 150
 // @timeout 1500
 // @needs T0
-// @desc the whole body of try_allocate_from (the cross-slice loop with fragment retry), with try_alloc_from_rb_slice replaced by its CONTRACT (any result the alloc-step harnesses allow) and free_clusters recorded: whatever the slices grant, the run finally returned is ONE contiguous range made of adjacent grants, no longer than requested; every granted piece that is not part of the returned run was given back through free_clusters exactly once; nothing that is returned was freed
+// @desc the whole body of try_allocate_from (the cross-slice loop with fragment retry), with try_alloc_from_rb_slice replaced by its CONTRACT (any result the alloc-step harnesses allow) and free_clusters recorded: whatever the slices grant, the run finally returned is ONE contiguous range made of adjacent grants, no longer than requested; every granted piece that is not part of the returned run was given back through free_clusters exactly once; nothing that is returned was freed; every slice it consults belongs to the one refcount block whose reftable entry it resolved (it never runs past the end of that block)
 // @bounds at most 4 allocator steps per request; request of 1..=6 clusters; 64 KiB clusters, 16-bit refcounts, 512-byte slices (256 clusters per slice); any starting cluster < 2^40
 // @funcs Qcow2Dev::try_allocate_from (whole body) HostCluster::{rb_host_end,rb_slice_host_end,rb_slice_index}
 // @stub alloc::fmt::format -> String::new()
@@ -47,6 +47,11 @@ fn c08_fragment_retry() {
     while k < MAX_REC {
         if k < n {
             let e = env.get_rec(k);
+            if e.kind == K_TRYALLOC {
+                // "cannot cross refblock boundaries": every slice it asks lies in the refcount
+                // block whose reftable entry was resolved at entry
+                assert!(HostCluster(e.buf_start as u64).rt_index(&env.info) == HostCluster(host).rt_index(&env.info));
+            }
             if e.kind == K_TRYALLOC && e.len > 0 {
                 assert!(pending_free == 0);
                 if held == 0 {
@@ -81,6 +86,7 @@ fn c08_fragment_retry() {
     kani::cover!(matches!(r, Ok(Some((_, d))) if d == cnt) && env.count(K_TRYALLOC) >= 2, "run assembled from two slices");
     kani::cover!(env.count(K_FREE) == 2, "fragment found and given back");
     kani::cover!(matches!(r, Ok(None)));
+    kani::cover!(env.count(K_TRYALLOC) >= 1 && HostCluster(host).rb_slice_host_end(&env.info) == HostCluster(host).rb_host_end(&env.info), "starts in the last slice of its refcount block");
     core::mem::forget(r);
     core::mem::forget(env);
 }
